@@ -571,6 +571,21 @@ def run_case(case, acc):
                         viols.append(("memory_percent_wrong",
                                       f"memory_percent({mt!r}) = {pc!r} want {want!r} "
                                       f"(field {exp_full[mt]}, total {total_bytes})"))
+            if harness.chash(case)[-5] in "0123":
+                # the statm-based fields do not need the per-mapping files: with smaps and smaps_rollup refused (another user's
+                # process, a ptrace-restricted one) their percentages are still answered
+                rule = (lambda kind, path: PermissionError(13, "Permission denied", path)
+                        if kind == "open" and (path.endswith("/smaps") or path.endswith("/smaps_rollup")) else None)
+                vk.rules.append(rule)
+                try:
+                    for mt in MEM_FIELDS:
+                        acc.count("percent_comparisons_with_mapping_files_refused")
+                        ok, pc = call("memory_percent", lambda: pr.memory_percent(mt))   # noqa: B023
+                        want = 100.0 * exp_full[mt] / total_bytes
+                        if ok and (not isinstance(pc, float) or not math.isclose(pc, want, rel_tol=1e-12, abs_tol=0.0)):
+                            viols.append(("memory_percent_wrong:mapping_files_refused", f"memory_percent({mt!r}) = {pc!r} want {want!r}"))
+                finally:
+                    vk.rules.remove(rule)
             try:
                 r = pr.memory_percent(case["bad_memtype"])
             except ValueError:
